@@ -39,6 +39,50 @@ def type_mutants(rng, prog, k):
     return out
 
 
+def structural_mutants(rng, prog, k):
+    """type-changing edits other than literals: drop / add / swap an argument of a call, rename a use to another (or an
+    undefined) name, replace a receiver, change a declared type"""
+    import re
+    text = prog.text
+    names = sorted(set(re.findall(r"\b(?:[vutonlqhmeb]\d+|a\d+|p\d+|c\d+|g\d+)\b", text)))
+    calls = [m for m in re.finditer(r"(?<![\w\\])((?:\w+\.)?\w+)\(([^()\n]*)\)", text) if not m.group(1).startswith(("print", "def")) and "def " not in text[max(0, m.start() - 4):m.start()]]
+    out = []
+    for _ in range(k):
+        kind = rng.choice(["drop-arg", "add-arg", "swap-arg", "rename-use", "receiver", "declared-type"])
+        if kind in ("drop-arg", "add-arg", "swap-arg") and calls:
+            m = rng.choice(calls)
+            args = [a.strip() for a in m.group(2).split(",")] if m.group(2).strip() else []
+            if kind == "drop-arg" and args:
+                del args[rng.randrange(len(args))]
+            elif kind == "add-arg":
+                args.insert(rng.randint(0, len(args)), rng.choice(["1", "\"s\"", "True"] + names[:3]))
+            elif kind == "swap-arg" and len(args) >= 2:
+                i, j = rng.sample(range(len(args)), 2)
+                args[i], args[j] = args[j], args[i]
+            else:
+                continue
+            out.append(("mutant " + kind, text[:m.start(2)] + ", ".join(args) + text[m.end(2):]))
+        elif kind == "rename-use" and names:
+            uses = [m for m in re.finditer(r"\b(?:[vutonlqhmeb]\d+|a\d+|p\d+)\b", text) if not re.search(r"(def (fin )?|\(|, |for )$", text[max(0, m.start() - 8):m.start()]) and text[m.end():m.end() + 1] != ":"]
+            if uses:
+                m = rng.choice(uses)
+                new = rng.choice([n for n in names if n != m.group(0)] + ["zz9"])
+                out.append(("mutant rename-use", text[:m.start()] + new + text[m.end():]))
+        elif kind == "receiver":
+            recs = list(re.finditer(r"\b(o\d+|self)\.(\w+)", text))
+            if recs and names:
+                m = rng.choice(recs)
+                new = rng.choice(names + ["5", "\"s\""])
+                out.append(("mutant receiver", text[:m.start(1)] + new + text[m.end(1):]))
+        elif kind == "declared-type":
+            tys = list(re.finditer(r"(: |-> )(Int|Str|Bool)\b", text))
+            if tys:
+                m = rng.choice(tys)
+                new = rng.choice([t for t in ("Int", "Str", "Bool", "Float") if t != m.group(2)])
+                out.append(("mutant declared-type", text[:m.start(2)] + new + text[m.end(2):]))
+    return out
+
+
 USE = {"Int": "{x} + 1", "Float": "{x} + 1.5", "Str": "{x} + \"t\"", "Bool": "{x} and True"}
 
 
@@ -84,6 +128,29 @@ def container_flows():
     return out
 
 
+def arity_flows():
+    """calls with one argument dropped or added, for every kind of callee and 1-3 declared parameters (the last one with
+    and without a default): either rejected, or the program runs"""
+    out = []
+    vals = ["1", "2", "3", "4"]
+    for n in (1, 2, 3):
+        for with_default in (False, True):
+            params = ["p%d: Int" % i for i in range(n)]
+            if with_default:
+                params[-1] += " := 9"
+            sig = ", ".join(params)
+            for given in range(0, n + 2):
+                args = ", ".join(vals[:given])
+                tag = "arity/n=%d%s/given=%d" % (n, "d" if with_default else "", given)
+                out.append((tag + "/function", "def f(%s) -> Int => p0\nprint(f(%s))\n" % (sig, args)))
+                out.append((tag + "/method", "class K\n    def m(self, %s) -> Int => p0\ndef o := K()\nprint(o.m(%s))\n" % (sig, args)))
+                out.append((tag + "/method-fin-self", "class K\n    def m(fin self, %s) -> Int => p0\ndef o := K()\nprint(o.m(%s))\n" % (sig, args)))
+                out.append((tag + "/self-method", "class K\n    def m(self, %s) -> Int => p0\n    def go(self) -> Int => self.m(%s)\nprint(K().go())\n" % (sig, args)))
+                out.append((tag + "/constructor", "class K(%s)\n    def z: Int := 0\ndef o := K(%s)\nprint(o.z)\n" % (", ".join("def " + p for p in params), args)))
+                out.append((tag + "/in-function", "def f(%s) -> Int => p0\ndef g() -> Int => f(%s)\nprint(g())\n" % (sig, args)))
+    return out
+
+
 def run(chk):
     thorough = chk.tier == "thorough"
     ok = chk.build_harness()
@@ -96,12 +163,14 @@ def run(chk):
         return
     rng = chk.rng
     cases = matrix()
+    cases += arity_flows()
     flows = container_flows()
     cases += flows if thorough else [c for c in flows if c[0].endswith(("/def", "/param"))] + rng.sample(flows, 150)
     progs = [gen_prog.Gen(rng).program() for _ in range(120 if thorough else 25)]
     cases += [("generated", p.text) for p in progs]
     for p in progs:
         cases += type_mutants(rng, p, 6 if thorough else 3)
+        cases += structural_mutants(rng, p, 12 if thorough else 8)
     cases += [("corpus " + f["key"], f["input"]) for f in chk.findings if f.get("input")]
     res = sweep.transpile(chk, [c[1] for c in cases], annotate_both=False)
     jobs, idx = [], []
@@ -132,4 +201,4 @@ def run(chk):
                          "cases": len(cases), "stats": stats}
     chk.cov["evaluations"] = len(cases)
     chk.cov["distinct_nontrivial"] = len(distinct)
-    chk.cov["rule"] = "distinct accepted programs executed: (type, operator, type) matrix over Int/Float/Str/Bool, unary minus, interpolation, generated programs and their single-literal type-changing mutants; tuple/list/set values with one wrong-typed component flowing through definitions, parameters, returns and method parameters"
+    chk.cov["rule"] = "distinct accepted programs executed: (type, operator, type) matrix over Int/Float/Str/Bool, unary minus, interpolation, generated programs, their single-literal type-changing mutants and their structural mutants (drop/add/swap an argument, rename a use, replace a receiver, change a declared type); calls with one argument too few or too many for every kind of callee; tuple/list/set values with one wrong-typed component flowing through definitions, parameters, returns and method parameters"
